@@ -39,7 +39,7 @@ def laws_for(g, rng, tier):
     s1, s2 = [SOF, [wb(73)], [x], [x]], [SOF, [wb(74)], [x], [x]]
     out.append(("sum_then_distr_r", Sm([STHEN, u, [SADD, s1, s2]]),
                 Sm([SADD, [STHEN, u, s1], [STHEN, u, s2]]), {"left_terms": 2, "right_terms": (1, 1)}))
-    n_rand = 150 if tier == "quick" else 4000
+    n_rand = 150 if tier == "quick" else 2200
     for _ in range(n_rand):
         a, ia = g.diagram(n_boxes=rng.randint(0, 4))
         b, ib = g.diagram(dom=ia[1], n_boxes=rng.randint(0, 3))
